@@ -5,12 +5,14 @@ import (
 	"context"
 	"encoding/json"
 	"fmt"
+	"go/ast"
 	"io"
 	"math"
 	"math/rand"
 	"os"
 	"path/filepath"
 	"sort"
+	"strings"
 	"sync"
 	"time"
 
@@ -78,6 +80,31 @@ func facts(repo string, w io.Writer) error {
 		}
 		fmt.Fprintln(w, common.EventsCoq(f.name, evs))
 	}
+	// the reservations made by a block client of BucketStore.Series
+	s2, err := common.ParseSrc(repo, "pkg/store/bucket.go")
+	if err != nil {
+		return err
+	}
+	var res []string
+	for _, fn := range []string{"blockSeriesClient.ExpandPostings", "blockSeriesClient.nextBatch"} {
+		fd, err := s2.FindFunc(fn)
+		if err != nil {
+			return err
+		}
+		ast.Inspect(fd.Body, func(n ast.Node) bool {
+			if ce, ok := n.(*ast.CallExpr); ok {
+				if se, ok := ce.Fun.(*ast.SelectorExpr); ok && se.Sel.Name == "Reserve" && len(ce.Args) == 1 {
+					res = append(res, fn+": "+s2.ExprString(ce.Fun)+"("+s2.ExprString(ce.Args[0])+")")
+				}
+			}
+			return true
+		})
+	}
+	q := make([]string, len(res))
+	for i, x := range res {
+		q[i] = common.CoqString(x)
+	}
+	fmt.Fprintf(w, "(* pkg/store/bucket.go: Reserve calls of a block client, in source order *)\nDefinition blockClientReservations : list string := [%s]%%string.\n", strings.Join(q, "; "))
 	return nil
 }
 
